@@ -220,6 +220,7 @@ pub fn gen_bank(rng: &mut Rng) -> B {
             2 => 12,
             3 => 23,
             4 => 24 + rng.below(3) as u8,
+            5 | 6 => rng.below(24) as u8,
             _ => 6,
         },
         emissions_rate: match rng.below(4) {
